@@ -4,7 +4,8 @@
    (None = outside the documented range), see C03_Proofs.v. *)
 From Coq Require Import String ZArith List Bool QArith.
 From HD Require Import Base.Val Base.PySlice C03_Model C03_Proofs C03_Proofs_Geom C03_Proofs_Stack C03_Proofs_Sub
-  C03_Proofs_Infer C03_Proofs_Strict C03_Proofs_NoHint C03_Proofs_Perm C03_Model_PM C03_Proofs_PM.
+  C03_Proofs_Infer C03_Proofs_Strict C03_Proofs_NoHint C03_Proofs_Perm C03_Model_PM C03_Proofs_PM
+  C03_Model_Seq C03_Proofs_Seq.
 From HD Require Base.Lin3.
 Import ListNotations.
 Open Scope Z_scope.
@@ -834,3 +835,74 @@ Proof.
   split; [vm_compute; reflexivity|]. unfold veq. repeat split; vm_compute; reflexivity.
 Qed.
 Print Assumptions C03_pm_example.
+
+(* ---- histories: several requests, one after the other, to ONE image object --------- *)
+(* (C03_Model_Seq.v: serving a request is a state transition of the object)
+   the object is unchanged by any history, and the answer to request k of ANY history is
+   the answer of an object that was never asked anything before *)
+Open Scope Z_scope.
+Theorem C03_history_independent : forall st hist k r,
+  nth_error hist k = Some r ->
+  fst (serve_all st hist) = st /\
+  nth_error (snd (serve_all st hist)) k = Some (answer_of st r) /\
+  snd (serve_all st [r]) = [answer_of st r].
+Proof. exact history_independent. Qed.
+Print Assumptions C03_history_independent.
+
+(* whatever was asked before and whatever is asked afterwards; no answer is dropped *)
+Theorem C03_history_any_context : forall st before r after,
+  nth_error (snd (serve_all st (before ++ r :: after))) (length before) = Some (answer_of st r) /\
+  length (snd (serve_all st (before ++ r :: after))) = (length before + 1 + length after)%nat.
+Proof. exact history_any_context. Qed.
+Print Assumptions C03_history_any_context.
+
+(* the answers of ONE history agree with each other, in whatever order the requests come:
+   when request i (any sub-volume arguments) is accepted, every get_volume() without
+   arguments of the same history (same allow_missing_positions, any as_indices) returns one
+   and the same volume `full` of n0 slices, every get_volume_geometry() of the history
+   returns the geometry G of exactly that volume, and the accepted sub-volume is the
+   documented numpy slice full[s:e, r0:r1, c0:c1] with the affine of G moved to its first
+   voxel (s, r0, c0) *)
+Theorem C03_history_consistent : forall st hist i am ss se rs re cs ce ai sh A' out,
+  1 <= st_rows st -> 1 <= st_cols st ->
+  nth_error hist i = Some (ReqVol am ss se rs re cs ce ai) ->
+  nth_error (snd (serve_all st hist)) i = Some (AnsVol (Ok (sh, A', out))) ->
+  exists G n0 full s e r0 r1 c0 c1,
+    (forall j ai', nth_error hist j = Some (ReqVol am None None None None None None ai') ->
+       nth_error (snd (serve_all st hist)) j
+       = Some (AnsVol (Ok ((n0, st_rows st, st_cols st), sub_aff (sub_aff G 0 0 0) 0 0 0, full)))) /\
+    (forall l, nth_error hist l = Some (ReqGeom am) ->
+       nth_error (snd (serve_all st hist)) l
+       = Some (AnsGeom (Ok (Some (G, (n0, st_rows st, st_cols st)))))) /\
+    std_slice ss se n0 ai = Ok (s, e) /\
+    std_rc rs re cs ce (st_rows st) (st_cols st) ai true = Ok (r0, r1, c0, c1) /\
+    (0 <= s ->
+       sh = (e - s, r1 - r0, c1 - c0) /\
+       A' = sub_aff (sub_aff G s 0 0) 0 r0 c0 /\
+       out = map (fun p => map (cut c0 (c1 - c0)) (cut r0 (r1 - r0) p)) (cut s (e - s) full)).
+Proof. exact history_consistent. Qed.
+Print Assumptions C03_history_consistent.
+
+(* non-vacuity: a 4-slice segmentation of a volume asked for slices 1:3 FIRST, then for
+   the whole volume, then for its geometry, then (1-based) for the last two slices *)
+Example C03_history_example :
+  let st := seg_from_volume (V3 (-20) 30 10) (V3 0 0 1) (V3 0 1 0) (V3 1 0 0) (5 # 2) (4 # 5) (3 # 5) 1 2
+                            [[[1; 0]]; [[0; 2]]; [[3; 0]]; [[0; 4]]] false in
+  let hist := [ReqVol true (Some 1) (Some 3) None None None None true;
+               ReqVol true None None None None None None false;
+               ReqGeom true;
+               ReqVol true (Some 3) None None None None None false] in
+  match snd (serve_all st hist) with
+  | [AnsVol (Ok (sh1, A1, out1)); AnsVol (Ok (sh2, A2, full)); AnsGeom (Ok (Some (G, sh3)));
+     AnsVol (Ok (sh4, A4, out4))] =>
+      sh1 = (2, 1, 2) /\ sh2 = (4, 1, 2) /\ sh3 = (4, 1, 2) /\ sh4 = (2, 1, 2) /\
+      (* (a left-handed input: the stack comes back mirrored, origin at the last input plane) *)
+      full = [[[0; 4]]; [[3; 0]]; [[0; 2]]; [[1; 0]]] /\
+      out1 = [[[3; 0]]; [[0; 2]]] /\ out4 = [[[0; 2]]; [[1; 0]]] /\
+      atr G =v= V3 (-20) 30 (35 # 2) /\ atr A2 =v= V3 (-20) 30 (35 # 2) /\
+      a0 G =v= V3 0 0 (-5 # 2) /\
+      atr A1 =v= V3 (-20) 30 15 /\ atr A4 =v= V3 (-20) 30 (25 # 2)
+  | _ => False
+  end.
+Proof. vm_compute. repeat split; reflexivity. Qed.
+Print Assumptions C03_history_example.
